@@ -293,13 +293,19 @@ def check_bin_script(spec, ctx):
         differentiable = bool(zt.requires_grad)     # the script's -G path calls backward() unconditionally
         # -o <out_weights>: the cotangent of the gradient (documented for -g/-G/-e); every other batch uses it
         nstart = int(zt.numel())
-        use_o = (len(spec['rules']) + nstart) % 2 == 0
+        variant = (len(spec['rules']) + nstart) % 3          # 0: -G   1: -G -o   2: -w ... -g -e -o (expected counts need -w)
+        use_o = variant in (1, 2); use_e = variant == 2
         ow = [0.5 + 0.25 * ((3 * i + 1) % 5) for i in range(nstart)]
-        g0 = None
+        g0 = None; e0 = None
         if differentiable:
             cot = torch.tensor(ow, dtype=torch.float64).reshape(zt.shape) if use_o else torch.ones_like(zt)
             (zt * cot).sum().backward()
             g0 = {n: (f_.weights.grad.reshape(-1).tolist() if f_.weights.grad is not None else None) for n, f_ in fgg.factors.items()}
+            # expected counts (-e): w * df/dw / f with f the weighted sum that was back-propagated
+            fval = float((zt * cot).sum())
+            e0 = {n: ((np.asarray(g0[n], dtype=float) * f_.weights.to_dense().detach().reshape(-1).numpy() / fval).tolist() if g0[n] is not None and fval > 0 else None)
+                  for n, f_ in fgg.factors.items()} if use_e else None
+            wjson = {n: json.dumps(f_.weights.to_dense().detach().tolist()) for n, f_ in fgg.factors.items()}
     except Exception as e:
         ctx.violation('bin-setup-failed', f'{type(e).__name__}: {e}'); return
     finally:
@@ -311,12 +317,17 @@ def check_bin_script(spec, ctx):
         with open(path, 'w') as f: json.dump(j, f)
         for method in ('fixed-point', 'newton'):
             for flag in ('', '-O', '-OO'):
-                cmd = [sys.executable] + ([flag] if flag else []) + [script, path, '-m', method, '-l', '1e-10', '-k', '2000', '-d'] + (['-G'] if fgg.factors else [])
+                cmd = [sys.executable] + ([flag] if flag else []) + [script, path, '-m', method, '-l', '1e-10', '-k', '2000', '-d']
+                if fgg.factors and use_e and g0 is not None:
+                    for n_ in fgg.factors: cmd += ['-w', n_, wjson[n_]]
+                    cmd += ['-g', '-e']
+                elif fgg.factors:
+                    cmd += ['-G']
                 if use_o and fgg.factors:
                     cmd += ['-o', json.dumps(np.asarray(ow).reshape(tuple(zt.shape)).tolist())]
                 p = subprocess.run(cmd, env=env, cwd=d, capture_output=True, text=True, timeout=300)
                 outs[(method, flag)] = (p.returncode, p.stdout.strip())
-    ctx.label('bin-script')
+    ctx.label('bin-script', 'bin-script-expectations' if (use_e and g0 is not None) else None)
     for method in ('fixed-point', 'newton'):
         base = outs[(method, '')]
         for flag in ('-O', '-OO'):
@@ -339,6 +350,17 @@ def check_bin_script(spec, ctx):
                         name, val = line[5:].split(']: ', 1)
                         try: printed[name] = np.asarray(json.loads(val), dtype=float).reshape(-1).tolist()
                         except Exception: printed[name] = 'unparsable'
+                printed_e = {}
+                for line in base[1].splitlines()[1:]:
+                    if line.startswith('E[#') and ']: ' in line:
+                        name, val = line[3:].split(']: ', 1)
+                        try: printed_e[name] = np.asarray(json.loads(val), dtype=float).reshape(-1).tolist()
+                        except Exception: printed_e[name] = 'unparsable'
+                for n, want in (e0 or {}).items():
+                    got = printed_e.get(n)
+                    if want is None: continue
+                    oke = isinstance(got, list) and len(got) == len(want) and all(b != b or abs(a - b) <= 1e-5 * (1 + abs(b)) for a, b in zip(got, want))
+                    ctx.require(oke, 'bin-expectation-differs', f'bin/sum_product.py -m {method}{" -o" if use_o else ""} -e: E[#{n}] printed {got}, in-process w*grad/f = {want}')
                 for n, want in g0.items():
                     got = printed.get(n)
                     if want is None:
